@@ -329,13 +329,7 @@ where
                     let prior = *pstack.last().unwrap();
                     pstack.push(self.stable.goto(prior, ridx).unwrap());
 
-                    let span = if spans.is_empty() {
-                        Span::new(0, 0)
-                    } else if pop_idx - 1 < spans.len() {
-                        Span::new(spans[pop_idx - 1].start(), spans[spans.len() - 1].end())
-                    } else {
-                        Span::new(spans[spans.len() - 1].start(), spans[spans.len() - 1].end())
-                    };
+                    let span = reduce_span(spans, pop_idx - 1);
                     spans.truncate(pop_idx - 1);
                     spans.push(span);
 
@@ -441,19 +435,7 @@ where
                     let pop_idx = pstack.len() - self.grm.prod(pidx).len();
                     if let Some(ref mut astack_uw) = *astack {
                         if let Some(ref mut spans_uw) = *spans {
-                            let span = if spans_uw.is_empty() {
-                                Span::new(0, 0)
-                            } else if pop_idx - 1 < spans_uw.len() {
-                                Span::new(
-                                    spans_uw[pop_idx - 1].start(),
-                                    spans_uw[spans_uw.len() - 1].end(),
-                                )
-                            } else {
-                                Span::new(
-                                    spans_uw[spans_uw.len() - 1].start(),
-                                    spans_uw[spans_uw.len() - 1].end(),
-                                )
-                            };
+                            let span = reduce_span(spans_uw, pop_idx - 1);
                             spans_uw.truncate(pop_idx - 1);
                             spans_uw.push(span);
 
@@ -604,6 +586,29 @@ where
             }
         }
         (laidx, pstack)
+    }
+}
+
+/// Return the span of a production whose symbols' spans are `spans[from..]`. This runs from the
+/// start of the first symbol which matched some input to the end of the last symbol which did so.
+/// Symbols which matched no input (e.g. rules which derived the empty string) have zero-length
+/// spans and are ignored; if no symbol matched any input (which includes productions with no
+/// symbols at all) the production's span is itself zero-length.
+fn reduce_span(spans: &[Span], from: usize) -> Span {
+    let syms = &spans[from..];
+    match (
+        syms.iter().find(|x| !x.is_empty()),
+        syms.iter().rev().find(|x| !x.is_empty()),
+    ) {
+        (Some(first), Some(last)) => Span::new(first.start(), last.end()),
+        _ => {
+            let off = match (syms.first(), spans[..from].last()) {
+                (Some(x), _) => x.start(),
+                (None, Some(x)) => x.end(),
+                (None, None) => 0,
+            };
+            Span::new(off, off)
+        }
     }
 }
 
